@@ -289,7 +289,7 @@ def oracle(r):
                 if got[0] != 'err' or got[1] != want[1]:
                     return (f'request {x} received {got[:2]}, sequential meaning gives {want}', None)
                 d = got[2]
-                cls = 'PreErr' if 40 <= want[1] < 50 else 'StageErr'
+                cls = (('FalsyPreErr' if want[1] % 4 == 1 else 'PreErr') if 40 <= want[1] < 50 else ('FalsyStageErr' if want[1] % 4 == 3 else 'StageErr'))
                 if d['cls'] != cls or d['args'] != [want[1]]:
                     return (f'request {x}: exception {d["cls"]}{d["args"]} instead of {cls}[{want[1]}]', None)
                 if not d['site']:
